@@ -24,7 +24,7 @@ def run(tier, replay=None):
     import subprocess
     n = int(subprocess.check_output([exe, 'nclasses', '0', '0', '0'], env=env).split()[0])
     sh = common.Sharded(exe, lambda a, b: ['c03', common.seed(), a, b, per_class], n, env=env, chunk=1, tag='c03',
-                        timeout=1800).run()
+                        timeout=1500).run()
     common.absorb(res, sh)
     st = common.merge_stats(sh.stats)
     res.evaluations = st.get('states', 0)
